@@ -302,6 +302,10 @@ def orbit_cardinality(orbit: list, modes: int) -> int:
     Returns:
         int: number of samples in the orbit
     """
+    if modes < len(orbit):
+        # an orbit with more occupied modes than there are modes contains no sample
+        return 0
+
     sample = orbit + [0] * (modes - len(orbit))
     counts = list(Counter(sample).values())
 
